@@ -38,7 +38,7 @@ def stages(tier, seed, bins):
             c["dupcopies"] = rnd.choice([2, 3])  # exact repeats: a landmark and a non-landmark may coincide (distance exactly 0)
         # the same data measured in another unit (widths / kernel parameters converted with it): every clause is scale free
         if rnd.random() < 0.15:
-            c["xscale"] = rnd.choice([1e-6, 1e-3, 1e3, 1e6])
+            c["xscale"] = rnd.choice([1e-12, 1e-9, 1e-6, 1e-3, 1e3, 1e6, 1e9])
         cases.append(c)
     for i in range(600 if thorough else 50):
         m = rnd.choice(["lmds", "lisomap"])
